@@ -480,6 +480,9 @@ def run_c13(w: World, rep: Report):
            'the graftap lock is an OP_TAPROOT: the committed script runs only on the edge where the recomputed point equals '
            'the root, every other script-path exit yields false, and the key path checks under the root (C05.R1/R2 '
            're-evaluated)', floor=8)
+    depend(rep, w, 'rules_c09', ('C09.R1',), 'C13.TD9',
+           'the script paths (script-hash, graftroot surrogate, graftap script) run their signature checks inside EVAL: '
+           'plugins, contracts and limits of the run reach every sub-tape (C09.R1 re-evaluated)', floor=20)
     sigfields_plumbed(w, rep, 'C13.T10')
     signed_message_from_vm(w, rep, 'C13.T11')
     rep.explanation = (
@@ -557,6 +560,11 @@ def run_c14(w: World, rep: Report):
     depend(rep, w, 'rules_c19', ('C19.R2',), 'C14.TD19',
            'the verdict for a witness does not depend on what the process verified before: no instruction writes '
            'process-global state (C19.R2 re-evaluated)', floor=10)
+    from .rules_c04 import _no_memo_in_tree_classes
+    _no_memo_in_tree_classes(w, rep, rule='C14.T12', markers=('preimage',), floor=1)
+    depend(rep, w, 'rules_c08', ('C08.R1',), 'C14.TD8',
+           'the execution timestamp the certificate windows are checked against is the embedder\'s: no code stores under a '
+           'str key of the run cache, so a supplied `timestamp` (0 included) is never replaced (C08.R1 re-evaluated)', floor=18)
     sigfields_plumbed(w, rep, 'C14.T10')
     rep.explanation = (
         'Necessary structural conditions of the delegation locks, decided by typing their templates: every '
@@ -777,6 +785,8 @@ def run_c15(w: World, rep: Report):
     depend(rep, w, 'rules_c19', ('C19.R2',), 'C15.TD19',
            'the verdict for a witness does not depend on what the process verified before: no instruction writes '
            'process-global state (C19.R2 re-evaluated)', floor=10)
+    no_falsy_default_on_numbers(w, rep, 'C15.T12')
+    exact_number_formatting(w, rep, 'C15.T13')
     depend(rep, w, 'rules_c11', ('C11.R8',), 'C15.TD11',
            'an operand a builder writes into its template (digest size, timeout, flags) compiles to the number written or '
            'is refused - a size that does not fit is never wrapped into another one, which would give a lock nobody can '
@@ -1138,3 +1148,84 @@ def signed_message_from_vm(w: World, rep: Report, rule: str, floor: int = 2):
             rep.check(rule, f'tools.{fi.name}|sign@{k2}|message-is-the-vm-item', not bad, line=nd.line, file=REL, why=bad)
     if n == 0:
         raise AnalysisError('no builder makes a signature outside the VM any more (inventory changed)')
+
+
+def exact_number_formatting(w: World, rep: Report, rule: str, floor: int = 1):
+    """Numbers a builder writes into script source are written exactly: an f-string hole with a float presentation
+    type or a precision (`{ts:.0f}`, `{n:e}`, `{x:g}`, `%`) rounds integers above 2**53, `round()` / `float()` on the
+    way do the same.  Checked on every f-string of tools.py (holes reached through helpers included, since it is
+    the formatting construct itself that is examined)."""
+    import re as _re
+    rep.rule(rule, 'numbers are written into script templates exactly: no float presentation type / precision in an '
+             'f-string hole, no float() / round() applied to a builder\'s integer argument', floor=floor)
+    m = w.repo.module('tools')
+    bad = []
+    n = 0
+    for fv in [x for x in ast.walk(m.tree) if isinstance(x, ast.FormattedValue)]:
+        n += 1
+        if fv.format_spec is not None:
+            spec = ''.join(v.value for v in fv.format_spec.values if isinstance(v, ast.Constant) and isinstance(v.value, str))
+            if _re.search(r'[eEfFgG%]$', spec) or '.' in spec:
+                bad.append((fv.lineno, f'{{{ast.unparse(fv.value)[:20]}:{spec}}}'))
+    for c in [x for x in ast.walk(m.tree) if isinstance(x, ast.Call) and isinstance(x.func, ast.Name) and x.func.id in ('float', 'round')]:
+        for fn in [f for f in ast.walk(m.tree) if isinstance(f, ast.FunctionDef) and any(y is c for y in ast.walk(f))]:
+            ints = {a.arg for a in fn.args.args + fn.args.kwonlyargs if a.annotation is not None and
+                    ast.unparse(a.annotation).replace("'", '') in ('int', 'int|None', 'int | None')}
+            if any(isinstance(y, ast.Name) and y.id in ints for a in c.args for y in ast.walk(a)):
+                bad.append((c.lineno, ast.unparse(c)[:30]))
+    rep.check(rule, 'tools|numbers-written-exactly', not bad, line=bad[0][0] if bad else None, file=REL,
+              why='' if not bad else f'`{bad[0][1]}` goes through a float: integers of 2**53 and more are rounded before they '
+              f'are compiled into the script, so the lock enforces another value than the one it was built for',
+              facts={'f_string_holes_examined': n})
+    if n < 50:
+        raise AnalysisError('tools.py: f-string holes not found (inventory changed)')
+
+
+def no_falsy_default_on_numbers(w: World, rep: Report, rule: str, floor: int = 1):
+    """A numeric argument of a builder (timeout, timestamp, size, count) is replaced by a default only when it is
+    *absent* (`is None`), never when it is merely falsy: `t = t or D`, `t if t else D`, `if not t: t = D` turn the
+    legitimate value 0 into the default (a PTLC with timeout 0 gets a day; t = 0 becomes "now")."""
+    rep.rule(rule, 'no builder replaces a numeric argument by a default on falsiness (`x or d`, `x if x else d`, '
+             '`if not x: x = d`): 0 is a value', floor=floor)
+    m = w.repo.module('tools')
+    n = 0
+    bad = []
+    for fn in [f for f in ast.walk(m.tree) if isinstance(f, ast.FunctionDef)]:
+        nums = set()
+        a = fn.args
+        pos = a.posonlyargs + a.args
+        defaults = dict(zip([x.arg for x in pos[len(pos) - len(a.defaults):]], a.defaults))
+        defaults.update({x.arg: d for x, d in zip(a.kwonlyargs, a.kw_defaults) if d is not None})
+        for x in pos + a.kwonlyargs:
+            ann = ast.unparse(x.annotation).replace("'", '').replace(' ', '') if x.annotation is not None else ''
+            d = defaults.get(x.arg)
+            if ann.split('|')[0] in ('int', 'float') or (isinstance(d, ast.Constant) and type(d.value) in (int, float)) or \
+                    (isinstance(d, ast.BinOp) and not ann):
+                nums.add(x.arg)
+        if not nums:
+            continue
+        n += 1
+        for x in ast.walk(fn):
+            p = None
+            if isinstance(x, ast.BoolOp) and isinstance(x.op, ast.Or) and isinstance(x.values[0], ast.Name) and \
+                    x.values[0].id in nums:
+                p = x.values[0].id
+            if isinstance(x, ast.IfExp):
+                t = x.test
+                if isinstance(t, ast.UnaryOp) and isinstance(t.op, ast.Not):
+                    t = t.operand
+                if isinstance(t, ast.Name) and t.id in nums:
+                    p = t.id
+            if isinstance(x, ast.If):
+                t = x.test
+                if isinstance(t, ast.UnaryOp) and isinstance(t.op, ast.Not) and isinstance(t.operand, ast.Name) and \
+                        t.operand.id in nums and any(isinstance(s2, ast.Assign) and any(isinstance(tg, ast.Name) and tg.id == t.operand.id
+                                                                                         for tg in s2.targets) for s2 in x.body):
+                    p = t.operand.id
+            if p is not None:
+                bad.append((fn.name, p, x.lineno, ast.unparse(x)[:40]))
+    rep.check(rule, 'tools|numeric-arguments-defaulted-only-when-absent', not bad, line=bad[0][2] if bad else None, file=REL,
+              why='' if not bad else f'{bad[0][0]}: `{bad[0][3]}` replaces {bad[0][1]} = 0 by the default - the lock is built for '
+              f'another value than the caller asked for', facts={'functions_with_numeric_parameters': n})
+    if n < 10:
+        raise AnalysisError('tools.py: builders with numeric parameters not found (inventory changed)')
